@@ -1,0 +1,9 @@
+//go:build !verif
+// +build !verif
+
+package utils
+
+import "os"
+
+// verifIOPoint is a no-op without the verif build tag.
+func verifIOPoint(point string, f *os.File, pending []byte) {}
